@@ -125,6 +125,13 @@ Section Validate.
 
 End Validate.
 
+(* oracle from rows (subject, numbers of the patterns that match it); default false *)
+Fixpoint re_of_rows (t : list (string * list nat)) (p : nat) (s : string) : bool :=
+  match t with
+  | [] => false
+  | (s', ps) :: r => if String.eqb s s' then existsb (Nat.eqb p) ps else re_of_rows r p s
+  end.
+
 (* oracle from a table of (pattern number, subject, result); default false *)
 Fixpoint re_of_table (t : list (nat * string * bool)) (p : nat) (s : string) : bool :=
   match t with
